@@ -272,7 +272,7 @@ func (g *gen) choose() (op, bool) {
 		sort.Ints(ps)
 		return op{k: []string{"pipefail", "pipeclose"}[r.Intn(2)], a: ps[r.Intn(len(ps))]}, true
 	case w < 82:
-		return op{k: "policy", a: r.Intn(3)}, true
+		return op{k: "policy", a: r.Intn(4)}, true
 	case w < 86:
 		return op{k: "refuse", a: r.Intn(2)}, true
 	case w < 88:
@@ -420,10 +420,17 @@ func (g *gen) apply(o op) {
 		_ = mp.Close()
 		g.finish(fmt.Sprintf("KPipeClose %d", o.a), false)
 	case "policy":
+		// 3: the pipe is closed by another goroutine while the protocol's AddPipe is running -- for the model the same event as 2
+		// (closed right after it was attached): Attached and Detached both happen, the ID is released, nothing stays listed
 		g.mu.Lock()
 		g.policy = o.a
 		g.mu.Unlock()
-		g.finish(fmt.Sprintf("KHookPolicy %d", o.a), false)
+		g.proto.SetCloseInAdd(o.a == 3)
+		m := o.a
+		if m == 3 {
+			m = 2
+		}
+		g.finish(fmt.Sprintf("KHookPolicy %d", m), false)
 	case "refuse":
 		g.proto.SetRefuse(o.a == 1)
 		g.finish(fmt.Sprintf("KProtoRefuse %v", o.a == 1), false)
@@ -459,6 +466,9 @@ var scripts = [][]op{
 	{{k: "listen"}, {k: "refuse", a: 1}, {k: "connect", a: 1}, {k: "refuse", a: 0}, {k: "connect", a: 1}, {k: "pipeclose", a: 2}, {k: "closesock"}},
 	// closed during Attached
 	{{k: "listen"}, {k: "policy", a: 2}, {k: "connect", a: 1}, {k: "connect", a: 1}, {k: "closesock"}},
+	// closed by another goroutine while the protocol's AddPipe is running (listener side, then dialer side)
+	{{k: "listen"}, {k: "policy", a: 3}, {k: "connect", a: 1}, {k: "connect", a: 1}, {k: "policy", a: 0}, {k: "connect", a: 1}, {k: "closesock"}},
+	{{k: "newdialer", a: 1, b: 30, c: 0}, {k: "policy", a: 3}, {k: "dial", a: 1}, {k: "resolve", a: 1, b: 1}, {k: "pass", a: 60}, {k: "resolve", a: 1, b: 1}, {k: "closesock"}},
 	// synchronous dial refused, then retried
 	{{k: "newdialer", a: 0, b: 30, c: 0}, {k: "dial", a: 1}, {k: "resolve", a: 1, b: 0}, {k: "dial", a: 1}, {k: "resolve", a: 1, b: 1}, {k: "pipefail", a: 1},
 		{k: "pass", a: 90}, {k: "resolve", a: 1, b: 1}, {k: "closesock"}},
